@@ -6,7 +6,11 @@ package main
 //   read only up to a limit expressed in items (`allow`), at most `frag` bytes per Read (fragmenting mode);
 //   a fault item makes every Read at that point return its error again (sticky).
 //   client -> server: Write appends to a buffer the peer decodes from; after `writeOK` successful writes the
-//   write side fails (C08 "the write side failing independently").
+//   write side fails (C08 "the write side failing independently").  With `wfrag` > 0 (explore mode) a Write is NOT atomic
+//   for concurrent callers - like an OS pipe above PIPE_BUF, or any writer that forwards in pieces: it hands its bytes over
+//   in chunks of `wfrag` bytes and the calling goroutine parks at a scheduler gate (kind WChunk) between two chunks, so the
+//   driver decides who runs while a message is half written.  Two Write calls in the transport at the same time are recorded
+//   (`overlap`): the client's messages are then interleaved in the stream (C05: "never corrupted by interleaved writes").
 
 import (
 	"errors"
@@ -39,6 +43,10 @@ type transport struct {
 	writes     int
 	writeOK    int // -1: never fails
 	nReads     int
+	wfrag      int    // > 0: bytes per chunk of a Write, a gate between two chunks
+	wInFlight  int    // Write calls that have begun and not finished
+	wOwners    []string
+	overlap    string // the first overlap of two Write calls (roles), "" = none
 }
 
 func newTransport(frag int, free bool, writeOK int) *transport {
@@ -93,16 +101,57 @@ func (t *transport) Read(p []byte) (int, error) {
 
 func (t *transport) Write(p []byte) (int, error) {
 	t.mu.Lock()
-	defer t.mu.Unlock()
 	if t.closed {
+		t.mu.Unlock()
 		return 0, io.ErrClosedPipe
 	}
 	if t.writeOK >= 0 && t.writes >= t.writeOK {
+		t.mu.Unlock()
 		return 0, errInjectedWrite
 	}
 	t.writes++
-	t.fromClient = append(t.fromClient, p...)
-	t.cond.Broadcast()
+	if t.wfrag <= 0 {
+		t.fromClient = append(t.fromClient, p...)
+		t.cond.Broadcast()
+		t.mu.Unlock()
+		return len(p), nil
+	}
+	me := sch.roleName()
+	if t.wInFlight > 0 && t.overlap == "" {
+		t.overlap = me + " started a Write while " + t.wOwners[len(t.wOwners)-1] + " was inside one"
+	}
+	t.wInFlight++
+	t.wOwners = append(t.wOwners, me)
+	t.mu.Unlock()
+	n := 0
+	for n < len(p) {
+		k := t.wfrag
+		if k > len(p)-n {
+			k = len(p) - n
+		}
+		t.mu.Lock()
+		if t.closed {
+			t.wInFlight--
+			t.mu.Unlock()
+			return n, io.ErrClosedPipe
+		}
+		t.fromClient = append(t.fromClient, p[n:n+k]...)
+		t.cond.Broadcast()
+		t.mu.Unlock()
+		n += k
+		if n < len(p) {
+			sch.park("transport.Write|WChunk:client->server") // no-op for an unregistered goroutine / gates off
+		}
+	}
+	t.mu.Lock()
+	t.wInFlight--
+	for i, o := range t.wOwners {
+		if o == me {
+			t.wOwners = append(t.wOwners[:i], t.wOwners[i+1:]...)
+			break
+		}
+	}
+	t.mu.Unlock()
 	return len(p), nil
 }
 
